@@ -4,7 +4,7 @@
         channel holds 4 streams, the bidirectional one 1) and compared with what the application
         saw through the public API.
    691: operation sequences on the real result cell against [Term.cstep]. *)
-From WT.Model Require Import Base Handoff Trace Term.
+From WT.Model Require Import Base Varint Ids Frame Runner Handoff Trace Term.
 From WT.Corr Require Import CorrBase.
 
 (* ---- 681 ---- *)
@@ -137,8 +137,19 @@ Definition model_691 (a : list (list N)) : list (list N) :=
   let ng := N.max 1 (argn 1 0 a) in
   [1] :: run_691 (S (length ops)) ng (mkcell None 1) [] ops.
 
+(* ---- 602: a backlog of one kind, then the peer's close capsule: every call of the other kind and
+   receive_datagram, pending or later, reports the peer's code and reason (with_driver_error) ---- *)
+Definition model_602 (a : list (list N)) : list (list N) :=
+  let code := argn 0 2 a in
+  let reason := arg 1 a in
+  match with_driver_error (Runner.DAppClosed code reason) None with
+  | CEApplicationClosed c r => [[1]; [1; c]; r; [1; c]; r; [1; c]; r; [1; c]; r]
+  | _ => [[PANIC]]
+  end.
+
 Definition model (f : N) (a : list (list N)) : list (list N) :=
   match f with
+  | 602 => model_602 a
   | 691 => model_691 a
   | _ => [[PANIC]]
   end.
@@ -146,4 +157,5 @@ Definition model (f : N) (a : list (list N)) : list (list N) :=
 Definition chk (c : case) : bool :=
   let '(f, a, o) := c in
   if f =? 681 then chk_681 o
+  else if f =? 602 then (match o with [2] :: _ => true | _ => lists_eqb (model_602 a) o end)
   else lists_eqb (model f a) o.
